@@ -12,8 +12,10 @@ import (
 	"os"
 	"os/exec"
 	"path/filepath"
+	"runtime"
 	"sort"
 	"strings"
+	"sync"
 )
 
 type mutant struct {
@@ -42,6 +44,18 @@ type mutantOutcome struct {
 	Rules   []string `json:"rules_fired,omitempty"`
 	OK      bool     `json:"as_expected"`
 	Note    string   `json:"note,omitempty"`
+}
+
+// thoroughWorkers: how many scratch trees are analysed at the same time (each holds one type-checked copy of the library).
+func thoroughWorkers() int {
+	n := runtime.NumCPU() / 4
+	if n < 1 {
+		n = 1
+	}
+	if n > 4 {
+		n = 4
+	}
+	return n
 }
 
 func loadMutants(dir string) ([]mutant, error) {
@@ -291,46 +305,66 @@ func runBenign(repo, verifDir, prop string) map[string]interface{} {
 	sort.Strings(patches)
 	silent, total, skipped := 0, 0, 0
 	var alarms []string
-	for _, pf := range patches {
-		tmp, err := os.MkdirTemp("", "gochk-benign-")
-		if err != nil {
-			continue
-		}
-		func() {
+	type res struct {
+		skipped bool
+		fired   []string
+		name    string
+	}
+	results := make([]res, len(patches))
+	var wg sync.WaitGroup
+	sem := make(chan struct{}, thoroughWorkers())
+	for i, pf := range patches {
+		i, pf := i, pf
+		wg.Add(1)
+		sem <- struct{}{}
+		go func() {
+			defer wg.Done()
+			defer func() { <-sem }()
+			r := res{name: filepath.Base(pf), skipped: true}
+			defer func() { results[i] = r }()
+			tmp, err := os.MkdirTemp("", "gochk-benign-")
+			if err != nil {
+				return
+			}
 			defer os.RemoveAll(tmp)
-			if out, err := exec.Command("cp", "-r", repo+"/.", tmp).CombinedOutput(); err != nil {
-				_ = out
-				skipped++
+			if _, err := exec.Command("cp", "-r", repo+"/.", tmp).CombinedOutput(); err != nil {
 				return
 			}
 			os.RemoveAll(filepath.Join(tmp, ".git"))
 			ap := exec.Command("git", "apply", "--unsafe-paths", "--directory="+tmp, pf)
 			ap.Dir = tmp
 			if _, err := ap.CombinedOutput(); err != nil {
-				skipped++
 				return
 			}
 			w, err := LoadWorld(tmp, nil, nil)
 			if err != nil {
-				skipped++
 				return
 			}
 			rep := runProp(w, prop)
 			rep.finish(nil)
-			total++
 			fired := map[string]bool{}
 			for _, ob := range rep.Obls {
 				if ob.Status == stViolated || ob.Status == stUndecided {
 					fired[ob.Rule] = true
 				}
 			}
-			if len(fired) == 0 {
-				silent++
-			} else {
-				alarms = append(alarms, filepath.Base(pf)+": "+strings.Join(sortedKeys(fired), ","))
-				fmt.Printf("   benign refactoring %s raises %v under %s\n", filepath.Base(pf), sortedKeys(fired), prop)
-			}
+			r.skipped = false
+			r.fired = sortedKeys(fired)
 		}()
+	}
+	wg.Wait()
+	for _, r := range results {
+		if r.skipped {
+			skipped++
+			continue
+		}
+		total++
+		if len(r.fired) == 0 {
+			silent++
+		} else {
+			alarms = append(alarms, r.name+": "+strings.Join(r.fired, ","))
+			fmt.Printf("   benign refactoring %s raises %v under %s\n", r.name, r.fired, prop)
+		}
 	}
 	fmt.Printf("   benign refactorings under %s: silent %d/%d, skipped %d\n", prop, silent, total, skipped)
 	return map[string]interface{}{"silent": fmt.Sprintf("%d/%d", silent, total), "skipped": skipped, "false_alarms": alarms}
